@@ -57,7 +57,7 @@ def selftest(prop: str, repo: str, run: Run) -> None:
             if not os.path.exists(mp) or not os.path.exists(os.path.join(seeded, d, "patch.diff")):
                 continue
             meta = json.load(open(mp))
-            if d.startswith(("benign", "B-", "B3-", "B4-", "B5-", "B6-", "B7-", "B8-", "B9-", "B10-")):
+            if d.startswith(("benign", "B-", "B3-", "B4-", "B5-", "B6-", "B7-", "B8-", "B9-", "B10-", "B11-")):
                 # behaviour-preserving: silent, or - for the few variants recorded as outside what the extractor follows - exit 2
                 expect[d] = "analysis-error" if prop in meta.get("analysis_errors", {}) else "silent"
                 jobs.append((prop, repo, os.path.join(seeded, d)))
